@@ -650,6 +650,9 @@ func (e *Enc) execFunc(fr *Frame, st *State, reach Term) ([]Val, *State, Term) {
 				}
 				rets = append(rets, retRec{rb, vs, cur})
 				outState[b] = cur
+				if fr == fr.top && fr.contract != nil {
+					e.returnAsserts(fr, x, vs, cur, rb)
+				}
 				if fr == fr.top && fr.contract != nil && rb != "false" && (e.w.Thorough || (!fr.contract.NoNilChecks && !fr.contract.WriteFrame)) {
 					// consistency: the assumptions collected along the way to this return (callee
 					// contracts, trusted specs, axioms - including the quantified ones) must not
@@ -953,4 +956,50 @@ func (e *Enc) typedRefsOf(v Val, out []typedRef, depth int) []typedRef {
 		}
 	}
 	return out
+}
+
+// returnAsserts: cut-point assertions `assert at return#k: e` - k counts the return statements of
+// the function in source order; ret0.. denote the values returned there.
+func (e *Enc) returnAsserts(fr *Frame, ret *ssa.Return, vals []Val, st *State, rb Term) {
+	has := false
+	for _, ca := range fr.contract.Asserts {
+		if ca.Kind == "return" {
+			has = true
+		}
+	}
+	if !has {
+		return
+	}
+	var all []*ssa.Return
+	for _, b := range fr.fn.Blocks {
+		for _, in := range b.Instrs {
+			if r, ok := in.(*ssa.Return); ok {
+				all = append(all, r)
+			}
+		}
+	}
+	sort.SliceStable(all, func(i, j int) bool { return all[i].Pos() < all[j].Pos() })
+	ord := 0
+	for i, r := range all {
+		if r == ret {
+			ord = i + 1
+		}
+	}
+	for k, ca := range fr.contract.Asserts {
+		if ca.Kind != "return" || ca.N != ord {
+			continue
+		}
+		saved := fr.retVals
+		fr.retVals = vals
+		f, watch := e.evalBoolWatch(e.hostEnv(fr), ca.Clause.Expr, st, fr.entry, ca.Clause)
+		fr.retVals = saved
+		fr.callN[fmt.Sprintf("assertseen:%d", k)]++
+		name := fmt.Sprintf("assert@return#%d", ord)
+		if c := fr.callN["assertname:"+name]; c > 0 {
+			name = fmt.Sprintf("%s.%d", name, c+1)
+		}
+		fr.callN["assertname:"+fmt.Sprintf("assert@return#%d", ord)]++
+		o := e.ob(fr, "assert", name, rb, f, ca.Clause.Src, ret.Pos())
+		o.Watch = append(e.paramWatch(fr), watch...)
+	}
 }
